@@ -71,8 +71,8 @@ def lit_value(s):
 
 
 def var_name(r, k):
-    # (names starting with "free" are excluded: see known finding KF-C10-free-prefixed-name, exercised by KNOWN_FREE_CASE)
-    base = r.choice(["x", "y", "z", "w", "var", "Q", "a_b", "t.1", "p#", "u$", "m!", "e", "E", "inf_x", "fre"])
+    # (names starting with keywords: "free13", "inf_x", "end_", "st1" must be read as names)
+    base = r.choice(["x", "y", "z", "w", "var", "Q", "a_b", "t.1", "p#", "u$", "m!", "e", "E", "inf_x", "fre", "free", "Free_", "end_", "st", "bound"])
     return "%s%d" % (base, k)
 
 
